@@ -129,6 +129,22 @@ def source_duplicates(path):
         for k, v in zip(node.keys, node.values):
             if k is None:  # {**other}
                 src = v.id if isinstance(v, ast.Name) else None
+                if src is None:
+                    # {**helper(...)}: evaluate the expression in the module's own namespace
+                    try:
+                        import importlib
+                        import os
+
+                        mod = importlib.import_module("pyubx2." + os.path.basename(path)[:-3])
+                        val_ = eval(compile(ast.Expression(v), path, "eval"), dict(vars(mod)))  # noqa: S307
+                        spl = [repr(x) for x in val_] if isinstance(val_, dict) else []
+                    except Exception:  # noqa - not evaluable: nothing to say about it
+                        spl = []
+                    for kk in spl:
+                        if kk in keys:
+                            found.append((where + " (** of a computed dict)", kk))
+                        keys.append(kk)
+                    continue
                 for kk in sorted(names.get(src, ())):
                     if kk in keys:
                         found.append((where + f" (**{src})", kk))
@@ -378,6 +394,30 @@ def check(case) -> core.Out:
         if mk not in known_ids:
             out.viol.append((key + "unknown-id", "variant selector for an ID missing from UBX_MSGIDS"))
         return out
+    if k == "cfgval-names":
+        name, bit = case["name"], case["bit"]
+        db = pyubx2.UBX_CONFIG_DATABASE
+        out.classes = ["two-keys-two-names"]
+        if name not in db:
+            out.classes = ["skipped:key-gone"]
+            return out
+        kid, _typ = db[name]
+        nb = kid ^ (1 << bit)
+        if any(k_ == nb for k_, _t in db.values()):
+            out.classes = ["skipped:neighbour-documented"]
+            return out
+        out.nontrivial = True
+        w = {1: 1, 2: 1, 3: 2, 4: 4, 5: 8}[(kid >> 28) & 7]
+        frame = codec.ubx_frame(b"\x06", b"\x8a", b"\x00\x01\x00\x00" + kid.to_bytes(4, "little") + bytes(w)
+                                + nb.to_bytes(4, "little") + b"\x01" * w)
+        try:
+            names_ = [n_ for n_, _v in C.public_attrs(pyubx2.UBXReader.parse(frame, msgmode=1))]
+        except Exception as err:  # noqa
+            names_ = [f"<{type(err).__name__}>"]
+        if len(names_) != len(set(names_)) or sum(1 for n_ in names_ if n_.startswith("CFG_")) != 2:
+            out.viol.append((f"{PROP}|CFGVAL|two-fields-one-name",
+                             f"CFG-VALSET with {hex(kid)} ({name}) and {hex(nb)} exposes {names_[-3:]}"))
+        return out
     if k == "cfgkey":
         name = case["name"]
         db = pyubx2.UBX_CONFIG_DATABASE
@@ -478,6 +518,14 @@ def run_shard(spec, ctx, acc):
             acc.violations.append({"key": f"{PROP}|TABLES|{tname}|changed-by-use",
                                    "case": {"kind": "cfgkey", "name": "CFG_UART1_BAUDRATE"},
                                    "detail": f"table {tname} differs after key/value messages were parsed"})
+    # key/value messages take their attribute names from the payload: a documented key next to
+    # an undocumented ID that differs from it in one reserved bit are two fields, two names
+    for j, name in enumerate(sorted(pyubx2.UBX_CONFIG_DATABASE)):
+        if j % 9:
+            continue
+        for bit in (24, 27, 12, 15, 26):
+            case = {"kind": "cfgval-names", "name": name, "bit": bit}
+            core.handle(acc, core.checked(check, case), case, known)
     for name in pyubx2.UBX_CONFIG_DATABASE:
         case = {"kind": "cfgkey", "name": name}
         core.handle(acc, core.checked(check, case), case, known)
